@@ -29,6 +29,15 @@ func lexLine(s string, line int, file string) ([]tok, error) {
 			for j < len(s) && (s[j] >= '0' && s[j] <= '9' || s[j] == 'x' || s[j] >= 'a' && s[j] <= 'f' || s[j] >= 'A' && s[j] <= 'F' || s[j] == '_') {
 				j++
 			}
+			if j+1 < len(s) && s[j] == '.' && s[j+1] >= '0' && s[j+1] <= '9' {
+				k := j + 1
+				for k < len(s) && s[k] >= '0' && s[k] <= '9' {
+					k++
+				}
+				out = append(out, tok{"flt", s[i:k], line})
+				i = k
+				break
+			}
 			out = append(out, tok{"int", s[i:j], line})
 			i = j
 		case c == '_' || c == '$' || c >= 'a' && c <= 'z' || c >= 'A' && c <= 'Z':
@@ -96,6 +105,7 @@ type SExpr interface{}
 type SIdent struct{ Name string }
 type SIntLit struct{ V string }
 type SStrLit struct{ V string }
+type SFltLit struct{ V string }
 type SChrLit struct{ V byte }
 type SBoolLit struct{ V bool }
 type SNil struct{}
@@ -364,6 +374,9 @@ func (p *parser) parsePrimary() (SExpr, error) {
 	case "int":
 		p.p++
 		return &SIntLit{strings.ReplaceAll(t.v, "_", "")}, nil
+	case "flt":
+		p.p++
+		return &SFltLit{t.v}, nil
 	case "str":
 		p.p++
 		return &SStrLit{t.v}, nil
